@@ -62,6 +62,7 @@ var targets = []target{
 	{"simple_tree_walker.go", "WalkerNode.Level"},
 	{"simple_tree_walker.go", "WalkerNode.Path"},
 	{"simple_tree_walker.go", "WalkerNode.HasChild"},
+	{"tree_handler_programmably.go", "validateTreeRoot"},
 }
 
 // struct types that are handled through pointers which the translated functions never find nil (a nil
@@ -450,6 +451,33 @@ func (t *tr) callName(sc *scope, fun ast.Expr) (kind, name string) {
 		}
 	}
 	return "", ""
+}
+
+// nilChecked: the pointer parameters a function compares with nil — those are `Option T` values, and
+// `if x == nil { … return }` becomes a `match x with | none => … | some x => <rest>`
+func nilChecked(f *fnInfo) map[string]bool {
+	r := map[string]bool{}
+	params := map[string]bool{}
+	for _, p := range f.decl.Type.Params.List {
+		if _, ok := p.Type.(*ast.StarExpr); ok {
+			for _, n := range p.Names {
+				params[n.Name] = true
+			}
+		}
+	}
+	ast.Inspect(f.decl.Body, func(n ast.Node) bool {
+		be, ok := n.(*ast.BinaryExpr)
+		if !ok || (be.Op != token.EQL && be.Op != token.NEQ) {
+			return true
+		}
+		x, ok1 := be.X.(*ast.Ident)
+		y, ok2 := be.Y.(*ast.Ident)
+		if ok1 && ok2 && y.Name == "nil" && params[x.Name] {
+			r[x.Name] = true
+		}
+		return true
+	})
+	return r
 }
 
 // paramStruct: the struct type of a parameter declared as T or *T
@@ -1037,6 +1065,14 @@ func (t *tr) block(sc *scope, stmts []ast.Stmt, ind string) string {
 			}
 			pre = t.assign(sc, as, ind)
 		}
+		if be, ok := x.Cond.(*ast.BinaryExpr); ok && be.Op == token.EQL && x.Init == nil && x.Else == nil && leaves(x.Body.List) {
+			if px, ok := be.X.(*ast.Ident); ok {
+				if ny, ok := be.Y.(*ast.Ident); ok && ny.Name == "nil" && nilChecked(sc.fn)[px.Name] {
+					return ind + "match " + id(px.Name) + " with\n" + ind + "| none =>\n" + t.block(sc.clone(), x.Body.List, ind+"  ") +
+						ind + "| some " + id(px.Name) + " =>\n" + t.block(sc, rest, ind+"  ")
+				}
+			}
+		}
 		cond := t.expr(sc, x.Cond)
 		var els []ast.Stmt
 		switch e := x.Else.(type) {
@@ -1476,13 +1512,20 @@ func (t *tr) function(f *fnInfo) string {
 		b.WriteString(" (" + id(rn) + " : " + f.recv + ")")
 		sc.vars[rn] = true
 	}
+	nc := nilChecked(f)
 	for _, p := range f.decl.Type.Params.List {
 		lt, ok := goTypeToLean(t, p.Type)
 		if !ok {
 			lt = t.fail(p.Pos(), "parameter type")
 		}
 		for _, n := range p.Names {
-			b.WriteString(" (" + id(n.Name) + " : " + lt + ")")
+			ty := lt
+			if nc[n.Name] {
+				if o, ok := resultType(t, p.Type); ok {
+					ty = o
+				}
+			}
+			b.WriteString(" (" + id(n.Name) + " : " + ty + ")")
 			sc.vars[n.Name] = true
 		}
 	}
